@@ -96,6 +96,10 @@ def run_check(pid, tier, seed, replay=None, jobs=None, only=None):
     findings = load_findings()
     os.makedirs(os.path.join(ROOT, "evidence"), exist_ok=True)
     os.makedirs(os.path.join(ROOT, "out", "replays"), exist_ok=True)
+    if not replay and not only:
+        for fn in os.listdir(os.path.join(ROOT, "out", "replays")):
+            if fn.startswith(pid + "-"):
+                os.unlink(os.path.join(ROOT, "out", "replays", fn))
     if replay:
         with open(replay) as f:
             rp = json.load(f)
@@ -167,6 +171,8 @@ def run_check(pid, tier, seed, replay=None, jobs=None, only=None):
     cov["known_finding_witnesses"] = {k: [dict(case=n, witness=w) for n, w in v[:2]] for k, v in known_fired.items()}
     cov["violating_cases"] = [dict(case=n, replay=p, first=u[0]) for n, p, u in new_violations[:10]]
     cov["per_case_wall_max"] = max([r.get("wall", 0) for r in results] or [0])
+    cov["slowest_cases"] = [[r["name"], r.get("wall", 0)] for r in sorted(results, key=lambda r: -r.get("wall", 0))[:6]]
+    cov["cpu_s_total"] = round(sum(r.get("wall", 0) for r in results), 1)
     ev = dict(property_id=pid, tier=tier, seed=seed, level=getattr(mod, "LEVEL", "exploration"),
               coverage=cov, assumptions=getattr(mod, "ASSUMPTIONS", []), wall_s=round(time.time() - t0, 2),
               violations=len(new_violations))
